@@ -288,7 +288,18 @@ pub fn debug_time(code: &str, arg: i64) {
 
 fn run_all(ctx: &mut Ctx) {
     let tier = ctx.tier;
-    let mut progs: Vec<(String, String)> = snippets(tier).into_iter().map(|s| (s.name, s.code)).collect();
+    // (wrapper-augmented e2e programs that do not compile are retried without wrappers by keeping both)
+    let mut progs: Vec<(String, String)> = vec![];
+    for s in snippets(tier) {
+        if let Some(plain) = &s.plain {
+            let mut d = Dbs::default();
+            if d.compile(&Cfg::DEFAULT, &s.code).is_err() {
+                progs.push((s.name, plain.clone()));
+                continue;
+            }
+        }
+        progs.push((s.name, s.code));
+    }
     progs.extend(EXTRA.iter().map(|(n, c)| (format!("hintx:{n}"), c.to_string())));
     let mut dbs = Dbs::default();
     let cfg = Cfg::DEFAULT;
